@@ -379,7 +379,7 @@ NSHARD = 16
 
 
 def plan(tier):
-    n = 40 if tier == 'quick' else 400
+    n = 70 if tier == 'quick' else 400
     specs = [{'kind': 'machine', 'shard': i, 'examples': n} for i in range(NSHARD)]
     return specs
 
